@@ -90,7 +90,8 @@ def steps(r):
 def api_histories(chk, nseg, nmsg, maxlen=14):
     rng = chk.rng
     hs = [hist.gen_segment_history(rng, rng.randrange(2, maxlen), strict=rng.random() < .3, reject=rng.random() < .6) for _ in range(nseg)] + \
-         [hist.gen_message_history(rng, rng.randrange(2, maxlen - 2), strict=rng.random() < .3, reject=rng.random() < .5) for _ in range(nmsg)]
+         [hist.gen_message_history(rng, rng.randrange(2, maxlen - 2), strict=rng.random() < .3, reject=rng.random() < .5) for _ in range(nmsg)] + \
+         [hist.gen_field_history(rng, rng.randrange(2, maxlen - 2), strict=rng.random() < .3, reject=rng.random() < .5) for _ in range(nmsg)]
     res = vlib.pmap(hist.run_history_job, hs)
     kinds, excs = {}, {}
     for h, recs in zip(hs, res):
@@ -100,7 +101,7 @@ def api_histories(chk, nseg, nmsg, maxlen=14):
                 excs[r['exc'].split(':')[0] if r['exc'].startswith('HARNESS') else r['exc']] = excs.get(r['exc'], 0) + 1
             if r['exc'] and r['exc'].startswith('HARNESS'):
                 chk.broken.append({'kind': 'harness', 'log': r['exc']})
-    chk.dist['api_histories'] = {'segment': nseg, 'message': nmsg, 'ops_by_kind': kinds, 'exceptions': excs,
+    chk.dist['api_histories'] = {'segment': nseg, 'message': nmsg, 'field': nmsg, 'ops_by_kind': kinds, 'exceptions': excs,
                                  'strict_share': round(sum(1 for h in hs if h['strict']) / max(1, len(hs)), 2)}
     return list(zip(hs, res))
 
